@@ -101,6 +101,15 @@ func evalCondEnv(v ssa.Value, env map[*types.Var]bool) (val bool, ok bool) {
 	switch x := v.(type) {
 	case *ssa.Const:
 		return constBool(x)
+	case *ssa.Call:
+		// one-line accessors of an assumed field: b.Writable() / tx.Writable() return tx.writable
+		if n := calleeOf(x).Name(); n == "bbolt.(*Bucket).Writable" || n == "bbolt.(*Tx).Writable" {
+			for f, val := range env {
+				if f.Name() == "writable" {
+					return val, true
+				}
+			}
+		}
 	case *ssa.UnOp:
 		if x.Op == token.NOT {
 			b, ok := evalCondEnv(x.X, env)
